@@ -142,6 +142,12 @@ fn facets(ev: &Value, ex: &Value) -> Vec<(String, Value, Value, bool)> {
     }
 
     eq("anom", json!([]), ev["anom"].clone());
+
+    // every object is in exactly one place afterwards (C06), unless the model says
+    // that this call leaks (a forgotten iterator)
+    if ex["leaked"].as_array().map(|v| v.is_empty()).unwrap_or(true) {
+        eq("conservation", json!({"dup": 0, "missing": 0}), ev["cons"].clone());
+    }
     eq("others", json!(ev["others"].as_array().map(|v| v.iter()
         .map(|o| json!([o[0], true])).collect::<Vec<_>>()).unwrap_or_default()), ev["others"].clone());
 
@@ -424,6 +430,7 @@ fn main() {
                         if let Some(w) = mism.as_mut() {
                             writeln!(w, "{}", json!({"line": line_no, "facet": facet,
                                 "op": op["a"]["op"], "a": op["a"], "expected": e, "actual": a,
+                                "exp_tag": op["expect"]["ret"]["tag"], "act_tag": ev["ret"]["tag"],
                                 "crash": op["crash"]})).unwrap();
                         }
                     }
